@@ -361,3 +361,111 @@ func verifControlLoopGoesOn[T any](obs ...Observable[T]) Observable[T] {
 	})
 }
 `
+
+// ATTEMPT-DECISION-ERROR-BLIND: whether another attempt is made does not depend on what the error is.
+func ruleAttemptDecisionErrorBlind() check.Rule {
+	return check.Rule{
+		Name: "ATTEMPT-DECISION-ERROR-BLIND",
+		Doc:  "in every operator that subscribes to a source in a loop (Retry, RepeatWith, While/DoWhile, ...), the error callback of the attempt's observer never tests its error parameter in a condition (if, switch, for) of its own: the number of attempts is what the configuration and the outcomes dictate, so the error is stored, forwarded or handed to a function the caller supplied (a predicate of the options, a user callback), and nothing else decides on it. A Retry that gives up when the source's error wraps context.Canceled stops before its retries are spent although the subscription context is alive",
+		Run: func(c *check.Ctx) {
+			m := c.M
+			n := 0
+			for _, sc := range m.SCs {
+				if !c.Armed(sc) && !check.IsControlName(sc.Name) {
+					continue
+				}
+				info := sc.Pkg.TypesInfo
+				for _, site := range sc.SubSites {
+					if !site.InLoop || site.Observer == nil || site.Observer.Kind != model.AVObserver {
+						continue
+					}
+					av := site.Observer.Slots[model.SlotError]
+					if av == nil || av.Lit == nil {
+						continue
+					}
+					var errParam types.Object
+					for _, pv := range model.FlattenParams(info, av.Lit.Type.Params) {
+						if pv != nil && isErrorType(pv.Type()) {
+							errParam = pv
+						}
+					}
+					if errParam == nil {
+						continue
+					}
+					n++
+					key := fmt.Sprintf("%s/attempt-decision-error-blind", sc)
+					bad := token.NoPos
+					mentions := func(e ast.Expr) bool {
+						if e == nil {
+							return false
+						}
+						found := false
+						ast.Inspect(e, func(x ast.Node) bool {
+							if found {
+								return false
+							}
+							if call, ok := x.(*ast.CallExpr); ok {
+								// a function the caller supplied decides: opts.ShouldRetry(err), predicate(err)
+								if id, _ := rootIdent(call.Fun); id != nil {
+									if v, ok := objOf(info, id).(*types.Var); ok && isParamVar(m, v) {
+										if _, isSig := info.TypeOf(call.Fun).Underlying().(*types.Signature); isSig {
+											return false
+										}
+									}
+								}
+							}
+							if be, ok := x.(*ast.BinaryExpr); ok && (be.Op == token.EQL || be.Op == token.NEQ) && (isNilIdent(be.X) || isNilIdent(be.Y)) {
+								return false // a nil guard does not look at what the error is
+							}
+							if id, ok := x.(*ast.Ident); ok && objOf(info, id) == errParam {
+								found = true
+							}
+							return !found
+						})
+						return found
+					}
+					ast.Inspect(av.Lit.Body, func(x ast.Node) bool {
+						if bad.IsValid() {
+							return false
+						}
+						switch y := x.(type) {
+						case *ast.IfStmt:
+							if mentions(y.Cond) {
+								bad = y.Pos()
+							}
+						case *ast.SwitchStmt:
+							if mentions(y.Tag) {
+								bad = y.Pos()
+							}
+							for _, cl := range y.Body.List {
+								for _, e := range cl.(*ast.CaseClause).List {
+									if mentions(e) {
+										bad = cl.Pos()
+									}
+								}
+							}
+						case *ast.TypeSwitchStmt:
+							ast.Inspect(y.Assign, func(z ast.Node) bool {
+								if ta, ok := z.(*ast.TypeAssertExpr); ok && mentions(ta.X) {
+									bad = y.Pos()
+								}
+								return true
+							})
+						case *ast.ForStmt:
+							if mentions(y.Cond) {
+								bad = y.Pos()
+							}
+						}
+						return true
+					})
+					if bad.IsValid() {
+						c.Report(c.Armed(sc), key, bad, "the error callback of the attempt decides on the value of its error: whether the source is subscribed again no longer follows from the configuration and the outcome alone (an error that wraps context.Canceled ends Retry early although the subscription context is alive)")
+					} else if c.Armed(sc) {
+						c.OK(key, av.Lit.Pos(), "the error is stored, forwarded or handed to caller-supplied functions only")
+					}
+				}
+			}
+			c.Inc("attempt_error_callbacks", n)
+		},
+	}
+}
